@@ -12,6 +12,7 @@ CONSTANTS
   FixKeep = TRUE
   FixDangling = FALSE
   FixABA = TRUE
+  Healthy = FALSE
   DriftOn = FALSE
 INVARIANTS Exclusive NeverUnassignHeld NeverDeleteInUse HeldBacked QuotaAddr NoGhostOwner TrackedEqualsCloud
 CHECK_DEADLOCK FALSE
